@@ -47,6 +47,58 @@ fn panic_msg(p: Box<dyn std::any::Any + Send>) -> String {
     format!("panic:{}", msg.lines().next().unwrap_or("").replace('\t', " "))
 }
 
+fn gcd128(a: i128, b: i128) -> u128 {
+    let (mut a, mut b) = (a.unsigned_abs(), b.unsigned_abs());
+    while b != 0 {
+        let t = a % b;
+        a = b;
+        b = t;
+    }
+    a
+}
+
+/// The representation invariant of exact numbers: a bignum does not fit a fixnum, a ratio is reduced with a
+/// denominator > 1, a big ratio does not fit the 32-bit ratio.  Two values that print alike but are
+/// represented differently are not `=` / `equal?` to each other, so this is observable.
+fn noncanonical(v: &steel::SteelVal) -> Option<&'static str> {
+    use steel::SteelVal::*;
+    match v {
+        BigNum(b) => {
+            if format!("{}", &**b).parse::<isize>().is_ok() {
+                Some("bignum-fits-fixnum")
+            } else {
+                None
+            }
+        }
+        Rational(r) => {
+            let (n, d) = (*r.numer() as i128, *r.denom() as i128);
+            if d <= 1 {
+                Some("ratio-denominator")
+            } else if gcd128(n, d) != 1 {
+                Some("ratio-not-reduced")
+            } else {
+                None
+            }
+        }
+        BigRational(r) => {
+            let (ns, ds) = (format!("{}", r.numer()), format!("{}", r.denom()));
+            if ds == "1" || ds.starts_with('-') || ds == "0" {
+                return Some("bigratio-denominator");
+            }
+            if ns.parse::<i32>().is_ok() && ds.parse::<i32>().is_ok() {
+                return Some("bigratio-fits-ratio");
+            }
+            if let (Ok(n), Ok(d)) = (ns.parse::<i128>(), ds.parse::<i128>()) {
+                if gcd128(n, d) != 1 {
+                    return Some("bigratio-not-reduced");
+                }
+            }
+            None
+        }
+        _ => None,
+    }
+}
+
 /// Evaluate one program; the canonical text of its last value.
 fn eval(engine: &mut Engine, src: String) -> String {
     let r = catch_unwind(AssertUnwindSafe(|| engine.compile_and_run_raw_program(src)));
@@ -59,7 +111,10 @@ fn eval(engine: &mut Engine, src: String) -> String {
         Ok(Ok(vals)) => match vals.last() {
             // doubles are compared by their 64 bits, never by their text
             Some(steel::SteelVal::NumV(x)) => format!("f:{:016x}", x.to_bits()),
-            Some(v) => format!("{}", v),
+            Some(v) => match noncanonical(v) {
+                Some(why) => format!("noncanonical:{}:{}", why, v),
+                None => format!("{}", v),
+            },
             None => "void".to_string(),
         },
         Ok(Err(e)) => classify_err(&format!("{}", e)),
@@ -155,6 +210,16 @@ fn shapes(op: &str, f: &str, args: &[&str], n: usize, all: bool) -> Vec<(&'stati
                     "(define (c10-k{n} x y) {}) (define (c10-l{n} i acc) (if (= i 0) acc (c10-l{n} (- i 1) (c10-k{n} c10-a c10-b)))) (c10-l{n} 3 #f)",
                     wrap(format!("({} x y)", f))
                 ),
+            ));
+            // 7b. the procedure used as a first-class value: a real call of the compiled procedure (the JIT's
+            //     arithmetic helpers), not an inlined copy of its body
+            v.push((
+                "map-lit-r",
+                format!("(define (c10-m{n} x) {}) (car (map c10-m{n} (list c10-a)))", wrap(format!("({} x {})", f, b))),
+            ));
+            v.push((
+                "map-locals",
+                format!("(define (c10-n{n} x y) {}) (car (map c10-n{n} (list c10-a) (list c10-b)))", wrap(format!("({} x y)", f))),
             ));
             // 8. tail position inside let-bound locals
             v.push((
@@ -312,7 +377,7 @@ fn main() {
                     .into_iter()
                     .filter(|(name, _)| {
                         !has_float
-                            || !matches!(*name, "fold" | "lit-r" | "lit-l" | "prim-lit" | "branch-lit")
+                            || !matches!(*name, "fold" | "lit-r" | "lit-l" | "prim-lit" | "branch-lit" | "map-lit-r")
                     })
                     .collect();
                 for (i, (name, prog)) in shape_list.into_iter().enumerate() {
